@@ -26,7 +26,7 @@ def phase_diagrams(run, repo):
     n = 0
     for nr, nx in ((1, 1), (2, 3), (3, 2), (3, 4)):
         for units in (None, 'kJ/mol'):
-            I = Interp(repo, max_depth=10)
+            I = Interp(repo)
             D = I.D
             rx = [rxn_obj(I, 'rxn%d' % i) for i in range(nr)]
             nf = ListV([D.sym('nf%d' % i) for i in range(nr)])
@@ -75,7 +75,7 @@ def phase_diagrams(run, repo):
         for nx2, (n1, n2, units2) in itertools.product((1, 2, 3), (('T', 'P', None), ('T', 'P', 'kJ/mol'),
                                                                   ('P', 'T', 'kJ/mol'), ('P', 'P_B', 'kJ/mol'),
                                                                   ('P', 'T', None))):
-            I = Interp(repo, max_depth=10)
+            I = Interp(repo)
             D = I.D
             rx = [rxn_obj(I, 'rxn%d' % i) for i in range(nr)]
             nf = ListV([D.sym('nf%d' % i) for i in range(nr)])
@@ -146,7 +146,7 @@ def e_span(run, repo, max_states):
             perms = perms[::len(perms) // 720 + 1]
         for perm in perms:
             ranks = {}
-            I = Interp(repo, order=RankOrder(ranks), max_depth=10)
+            I = Interp(repo, order=RankOrder(ranks))
             D = I.D
             rxns = []
             names = []
@@ -188,7 +188,7 @@ def e_span(run, repo, max_states):
         for perm in itertools.permutations(range(ns)):
             for units in (None, 'kJ/mol'):
                 ranks = {}
-                I = Interp(repo, order=RankOrder(ranks), max_depth=10)
+                I = Interp(repo, order=RankOrder(ranks))
                 D = I.D
                 nodes = DictV()
                 names = []
